@@ -156,6 +156,9 @@ def check_cache(P, R):
                 R.finding(rule, fn, "read of cache", "the lookup cache is consulted outside __offs", x)
     nh = tzrules.halfopen_ranges(P, R, "RF-halfopen")
     R.floor("RF-halfopen", "comparisons against zrng_s bounds", nh, 4)
+    import zonedecode
+    nz = zonedecode.run(R, P, "RF2-zone")
+    R.floor("RF2-zone", "decoded (zone, cache state, instant) points of the offset lookup", nz, 40000)
     nv = tzrules.cache_validity(P, R, "RF7c-valid")
     R.floor("RF7c-valid", "narrowing reads of the cache / whole-time-line ranges", nv, 2)
     tzrules.index_narrowing(P, R, "RF3-index", ["tzraw.c"], {"__find_trno", "zif_find_trans"}, {"ntr", "trno"},
